@@ -23,6 +23,9 @@ pub struct GCfg {
     pub iters: Vec<bool>,
     /// hazardous operations (early iterator drop, iter() after shutdown): known findings
     pub hazard: u8,
+    /// iterator consumers do not start consuming until every client thread's first subscribe call
+    /// has returned (the reducer is then blocked handing a pair to the iterator)
+    pub lazy: bool,
     pub perturb: u8,
     pub scripts: Vec<Script>,
 }
@@ -58,19 +61,26 @@ pub fn gen(rng: &mut Rng, tiny: bool, thorough: bool) -> GCfg {
         let mut sc = Script::plain();
         match rng.below(5) {
             0 => sc.keep = 0xff,
-            1 => sc.eff[0] = Some(EffSpec { kind: rng.range(1, 3) as u8, follow_script: 0, n_follow: 1, panic: rng.chance(1, 4), gate: NOGATE }),
+            1 => {
+                let kind = rng.below(4) as u8;
+                sc.eff[0] = Some(EffSpec { kind, follow_script: 0, n_follow: 1, panic: kind != EK_ACTION && rng.chance(1, 4), gate: NOGATE })
+            }
             2 => sc.mw[0][0] = *rng.pick(&[V_DONE, V_BREAK, V_ERR]),
             _ => {}
         }
         sc.sel = rng.below(3) as u8;
         scripts.push(sc);
     }
+    let iters: Vec<bool> = (0..n_threads).map(|_| rng.chance(1, 3)).collect();
+    let policy = rng.below(3) as u8;
+    let lazy = policy == POL_BLOCK && iters.iter().any(|x| *x) && rng.chance(1, 2);
     GCfg {
-        policy: rng.below(3) as u8,
+        lazy,
+        policy,
         cap: *rng.pick(&[1usize, 2, 5, 16]),
         n_red: rng.range(1, 2) as u32,
         n_mw: rng.below(2) as u32,
-        iters: (0..n_threads).map(|_| rng.chance(1, 3)).collect(),
+        iters,
         hazard: if thorough && !tiny && rng.chance(1, 150) { rng.range(1, 2) as u8 } else { 0 },
         progs,
         perturb: rng.below(3) as u8,
@@ -86,6 +96,7 @@ pub fn describe(c: &GCfg) -> J {
         ("reducers", J::U(c.n_red as u64)),
         ("middlewares", J::U(c.n_mw as u64)),
         ("programs", J::A(c.progs.iter().enumerate().map(|(i, p)| J::s(format!("{}{}; stop; unsubscribe all", if c.iters[i] { "iter()+consumer; " } else { "" }, p.iter().map(|o| OP_NAMES[*o as usize]).collect::<Vec<_>>().join("; ")))).collect())),
+        ("lazy_consumers", J::B(c.lazy)),
         ("hazard", J::s(["none", "iterator dropped before end of stream", "iter() after shutdown"][c.hazard as usize])),
     ])
 }
@@ -93,7 +104,10 @@ pub fn describe(c: &GCfg) -> J {
 const MARK_GIVEUP: u32 = 900;
 
 /// consumer: reads the iterator to the end (or drops it early when `early` is set)
-fn consume(w: &W, id: u32, mut it: Box<dyn Iterator<Item = (St, Act)> + Send>, early: Option<&Counter>) {
+fn consume(w: &W, id: u32, mut it: Box<dyn Iterator<Item = (St, Act)> + Send>, early: Option<&Counter>, lazy: Option<(&Counter, u64)>) {
+    if let Some((c, n)) = lazy {
+        c.wait_at_least(n, 30);
+    }
     if let Some(c) = early {
         // hazard: wait until something was notified, then drop without reading
         c.wait_at_least(1, 30);
@@ -137,6 +151,7 @@ pub fn execute(c: &GCfg, seed: u64) -> W {
     sub.counter = Some(notified.clone());
     let _keep = w.add_sub_arc(0, sid, Arc::new(sub), false);
     let ready = Counter::new();
+    let subs_done = Counter::new();
     let n_scripts = c.scripts.len() as u64;
     let n_threads = c.progs.len() as u64;
     std::thread::scope(|sc| {
@@ -144,6 +159,7 @@ pub fn execute(c: &GCfg, seed: u64) -> W {
         for (t, prog) in c.progs.iter().enumerate() {
             let w = &w;
             let ready = &ready;
+            let subs_done = &subs_done;
             let notified = &notified;
             hs.push(std::thread::Builder::new().name(format!("client{}", t)).spawn_scoped(sc, move || {
                 let mut rng = Rng::new(mix(seed, 3000 + t as u64));
@@ -153,11 +169,24 @@ pub fn execute(c: &GCfg, seed: u64) -> W {
                 if c.iters[t] {
                     let (id, it) = w.add_iter(0, false);
                     let early = c.hazard == 1 && t == c.iters.iter().position(|x| *x).unwrap_or(99);
-                    consumer = Some(std::thread::Builder::new().name(format!("consumer{}", t)).spawn_scoped(sc, move || consume(w, id, it, if early { Some(notified.as_ref()) } else { None })).unwrap());
+                    consumer = Some(std::thread::Builder::new().name(format!("consumer{}", t)).spawn_scoped(sc, move || consume(w, id, it, if early { Some(notified.as_ref()) } else { None }, if c.lazy { Some((subs_done, n_threads)) } else { None })).unwrap());
                 }
                 ready.add(1);
                 ready.wait_at_least(n_threads, 60);
                 let mut k = 0u32;
+                if c.lazy {
+                    // two notifying actions: the second one blocks the reducer in the iterator's
+                    // on_notify (rendezvous channel, consumer not reading yet); a subscribe call made
+                    // now must still return
+                    if t == 0 {
+                        for j in 0..2 {
+                            w.dispatch(0, EP_INHERENT, Act { id: act_id(0, 40, j + 1), script: 0 });
+                        }
+                    }
+                    notified.wait_at_least(2, 20);
+                    subs.push(w.add_direct(0, NOGATE, false, false, false));
+                    subs_done.add(1);
+                }
                 for op in prog {
                     w.ctx.perturb();
                     k += 1;
@@ -211,7 +240,7 @@ pub fn execute(c: &GCfg, seed: u64) -> W {
                 if c.hazard == 2 && t == 0 {
                     // hazard: iter() after shutdown, consumed on this thread
                     let (id, it) = w.add_iter(0, false);
-                    consume(w, id, it, None);
+                    consume(w, id, it, None, None);
                 }
                 if let Some(h) = consumer {
                     h.join().unwrap();
@@ -342,7 +371,7 @@ pub fn run_witness(seed: u64, index: u64) -> Outcome {
             w.dispatch(0, EP_INHERENT, Act { id: act_id(0, 1, 1), script: 0 });
             w.stop(0, STOP_STOP);
             let (id, it) = w.add_iter(0, false);
-            consume(&w, id, it, None); // blocks for ever on the unchanged tree
+            consume(&w, id, it, None, None); // blocks for ever on the unchanged tree
             let h = Hist::from_world(&w);
             c13_minimal(&h, &mut v);
             Outcome::new(J::obj(vec![("family", J::s("W")), ("witness", J::s("C13 iter-after-shutdown: stop(); iter(); next()"))]), h, v)
